@@ -8,7 +8,7 @@ from pdb2sql import pdb2sql
 ID = 'C01'
 LEVEL = 'proof'
 CLUSTER = 'A'
-GEN_UNITS = ['_format_pdb_linelength', '_get_chainID', '_get_element', 'record_loop']
+GEN_UNITS = ['_format_pdb_linelength', '_get_chainID', '_get_element', 'record_loop', 'parse_runtime', 'parse_read_pdb', 'parse_create_table']
 RULE = ('ATOM lines built field by field: every field independently widest / narrowest / typical / blank-if-optional; atom names of 1-4 '
         'characters in every alignment; non-blank altLoc and iCode; negative numbers; lines truncated at every column >= 54; other record '
         'types interleaved (HETATM/TER/ANISOU/REMARK/END/ENDMDL); trailing newline or not; x the 7 container forms; a separate malformed '
@@ -336,3 +336,204 @@ def distribution(recs):
             b = min(len(r['impl']), 10)
             nrows[b] = nrows.get(b, 0) + 1
     return {'families': fam, 'forms': forms, 'outcomes': outcomes, 'rows_per_table(capped at 10)': nrows}
+
+
+# ---- parseTie: translated `_create_table` / `read_pdb` (Gen/ParseLoop.lean) against the real code ----------------------------------
+def gen_parse_tie_checks(ctx):
+    """implementation = generated: the statements `_create_table` REALLY hands to the cursor (recorded through a proxy around
+    `self.c`), `_nModel` and the exception class, against `GenP._create_table`; `pdb2sql.read_pdb` against `GenP.read_pdb` on every
+    input form incl. directories, missing files, empty containers and non-str elements"""
+    import vlib
+    rng = ctx.rng
+    out = []
+
+    def record_real(arg, tablename):
+        log = []
+
+        class Proxy:
+            def __init__(self, real):
+                self._real = real
+
+            def execute(self, q, *a):
+                log.append(['execute', q])
+                return self._real.execute(q, *a)
+
+            def executemany(self, q, data):
+                data = [tuple(r) for r in data]
+                log.append(['executemany', q, canon_rows(data)])
+                return self._real.executemany(q, data)
+
+            def __getattr__(self, k):
+                return getattr(self._real, k)
+
+        class Rec(pdb2sql):
+            def _create_sql(self, *a, **k):
+                pdb2sql._create_sql(self, *a, **k)
+                self.c = Proxy(self.c)
+        try:
+            db = Rec(arg, tablename=tablename) if tablename is not None else Rec(arg)
+            n = db._nModel
+            db._close()
+            return {'fx': log, 'nModel': n}
+        except Exception as e:
+            return exc_tag(e)
+
+    def same_fx(real, gen):
+        if isinstance(real, str) or isinstance(gen, str):
+            return real == gen
+        if real['nModel'] != gen['nModel'] or len(real['fx']) != len(gen['fx']):
+            return False
+        for a, b in zip(real['fx'], gen['fx']):
+            if a[0] == 'execute':
+                if b.get('execute') != a[1]:
+                    return False
+            elif b.get('executemany') != a[1] or not same_rows(a[2], b['rows']):
+                return False
+        return True
+
+    TABLENAMES = [None, 'atom', 'ATOM', 'at-om', 'a.b', 't(1)', 'x+y=z', 'T_1', 'my/table:2', 'a\\b|c`d~e']
+    # ---- _create_table: every container form, well-formed and malformed text
+    cs = []
+    for k in range(ctx.scale(260, 2500)):
+        form = FORMS[k % len(FORMS)]
+        r = rng.random()
+        mal = rng.choice(['long', 'nochain', 'serial', 'resSeq', 'x', 'occ', 'blankxyz']) if r < 0.15 else None
+        recs = gen_text(rng, rng.choice([5, 6, 9] if form in ('str', 'bytes') and rng.random() < 0.8 else [1, 2, 4, 5]), malformed=mal)
+        cs.append((make_case(recs, form, rng.random() < 0.5, 'gen-tie'), rng.choice(TABLENAMES)))
+    cs.append((make_case([], 'listStr', False, 'gen-tie-empty'), None))
+    cs.append((make_case([], 'ndarrayStr', False, 'gen-tie-empty'), None))
+    cs.append((make_case(['REMARK only'], 'listStr', False, 'gen-tie'), 'atom'))
+    cs.append((make_case(gen_text(rng, 3, others=False), 'str', False, 'gen-tie-short-text'), None))
+    lines, reals = [], []
+    for c, tn in cs:
+        arg, path = container(ctx, c)
+        try:
+            reals.append(record_real(arg, tn))
+        finally:
+            if path and os.path.exists(path):
+                os.remove(path)
+        d = driver_line(c)
+        d['op'] = 'gen_create_table'
+        # `pdb2sql(x)` passes the default of `__init__` on to `_create_table`
+        import inspect
+        d['tablename'] = tn if tn is not None else inspect.signature(pdb2sql.__init__).parameters['tablename'].default
+        lines.append(d)
+    ans = vlib.run_driver(lines, which='model', cluster=CLUSTER) if lines else []
+    bad = None
+    for (c, tn), real, a in zip(cs, reals, ans):
+        g = a.get('model')
+        if isinstance(g, str) and g.startswith('ERR:UNMODELLED'):
+            continue
+        if a.get('driver_error') or not same_fx(real, g):
+            bad = bad or {'case': c, 'tablename': tn, 'real': str(real)[:600], 'generated': str(g if not a.get('driver_error') else a)[:600]}
+    out.append({'name': f'gen:_create_table statements, rows, _nModel = implementation ({len(cs)} inputs)', 'ok': bad is None,
+                'case': bad, 'detail': 'GenP._create_table (translated on this run) against the statements recorded from the real cursor'})
+
+    # ---- read_pdb: every isinstance branch, the file system included
+    d0 = ctx.tmpdir()
+    fpath, dpath, npath = os.path.join(d0, 'rp_file.pdb'), os.path.join(d0, 'rp_dir'), os.path.join(d0, 'rp_missing.pdb')
+    os.makedirs(dpath, exist_ok=True)
+    rp = []
+
+    def add(arg, line):
+        rp.append((arg, dict(line, op='gen_read_pdb')))
+    for k in range(ctx.scale(60, 600)):
+        recs = gen_text(rng, rng.choice([1, 3, 4, 5, 6]))
+        text = '\n'.join(recs) + ('\n' if rng.random() < 0.5 else '')
+        with open(fpath, 'w') as f:
+            f.write(text)
+        fsj = {'path': fpath, 'kind': 'file', 'content': text}
+        which = k % 10
+        if which == 0:
+            add(fpath, {'form': 'str', 'arg': fpath, 'fs': fsj})
+        elif which == 1:
+            add(Path(fpath), {'form': 'path', 'arg': fpath, 'fs': fsj})
+        elif which == 2:
+            add(text, {'form': 'str', 'arg': text})
+        elif which == 3:
+            add(text.encode(), {'form': 'bytes', 'arg': text})
+        elif which == 4:
+            add(list(recs), {'form': 'listStr', 'arg': list(recs)})
+        elif which == 5:
+            add([r.encode() for r in recs], {'form': 'listBytes', 'arg': list(recs)})
+        elif which == 6:
+            add(np.array(recs), {'form': 'ndarrayStr', 'arg': list(recs)})
+        elif which == 7:
+            add(np.array([r.encode() for r in recs]), {'form': 'ndarrayBytes', 'arg': list(recs)})
+        elif which == 8:
+            add(fpath.encode(), {'form': 'bytes', 'arg': fpath, 'fs': fsj})
+        else:
+            add([r + '\n' for r in recs], {'form': 'listStr', 'arg': [r + '\n' for r in recs]})
+        # evaluate now: the file is rewritten by the next turn
+        rp[-1] = (None, rp[-1][1], real_read(rp[-1][0]))
+    fixed = [
+        (dpath, {'form': 'str', 'arg': dpath, 'fs': {'path': dpath, 'kind': 'dir'}}),
+        (Path(dpath), {'form': 'path', 'arg': dpath, 'fs': {'path': dpath, 'kind': 'dir'}}),
+        (npath, {'form': 'str', 'arg': npath, 'fs': {'path': npath, 'kind': 'none'}}),
+        (Path(npath), {'form': 'path', 'arg': npath, 'fs': {'path': npath, 'kind': 'none'}}),
+        ('', {'form': 'str', 'arg': ''}), (b'', {'form': 'bytes', 'arg': ''}),
+        ('\nATOM a\nATOM b\nATOM c', {'form': 'str', 'arg': '\nATOM a\nATOM b\nATOM c'}),
+        ('\nATOM a\nATOM b\nATOM c\nATOM d', {'form': 'str', 'arg': '\nATOM a\nATOM b\nATOM c\nATOM d'}),
+        ('ATOM a\nATOM b\nATOM c\nATOM d', {'form': 'str', 'arg': 'ATOM a\nATOM b\nATOM c\nATOM d'}),
+        ('\nATOM \nATOM \nATOM \nATOM', {'form': 'str', 'arg': '\nATOM \nATOM \nATOM \nATOM'}),
+        ([], {'form': 'listStr', 'arg': []}), (np.array([], dtype=str), {'form': 'ndarrayStr', 'arg': []}),
+        ([1, 2, 3], {'form': 'listOther', 'arg': 3}), ([None], {'form': 'listOther', 'arg': 1}),
+        (np.array([1.5, 2.5]), {'form': 'ndarrayOther', 'arg': 2}), (np.array([], dtype=float), {'form': 'ndarrayOther', 'arg': 0}),
+        (5, {'form': 'other'}), (None, {'form': 'other'}), ({'a': 1}, {'form': 'other'}), (('ATOM',), {'form': 'other'}),
+        (['ATOM x', ''], {'form': 'listStr', 'arg': ['ATOM x', '']}), ([b''], {'form': 'listBytes', 'arg': ['']}),
+    ]
+    for arg, line in fixed:
+        rp.append((None, dict(line, op='gen_read_pdb'), real_read(arg)))
+    ans = vlib.run_driver([l for _, l, _ in rp], which='model', cluster=CLUSTER)
+    bad = None
+    for (_, line, real), a in zip(rp, ans):
+        g = a.get('model')
+        if a.get('driver_error') or real != g:
+            bad = bad or {'line': str(line)[:400], 'real': str(real)[:400], 'generated': str(g if not a.get('driver_error') else a)[:400]}
+    out.append({'name': f'gen:read_pdb = implementation ({len(rp)} inputs, every isinstance branch, files / directories / missing paths)',
+                'ok': bad is None, 'case': bad, 'detail': 'GenP.read_pdb (translated on this run), file system as a parameter'})
+
+    # ---- the table-name clean-up loop alone, on names that SQLite would not accept as they are
+    punct = "!@#$%^&*()[]{};:,./<>?\\|`~-=_+"
+    names = ['atom', '', 'a b', '"q"', "it's", 'é-1', punct, 'x' + punct + 'y', '--', 'a\\|b']
+    for k in range(ctx.scale(30, 300)):
+        names.append(''.join(rng.choice('abAB01 _' + punct) for _ in range(rng.randint(0, 12))))
+    real = []
+    for n in names:
+        t = n
+        for ch in punct:
+            t = t.replace(ch, '_')
+        real.append(t)
+    # what the source does, read off the recorded CREATE TABLE text where SQLite accepts the cleaned name
+    probe = record_real(['ATOM      1  CA  ALA A   1       1.000   2.000   3.000  1.00  0.00           C  '], 'p-q.r')
+    okp = not isinstance(probe, str) and probe['fx'][0][1].startswith('CREATE TABLE p_q_r (')
+    ans = vlib.run_driver([{'op': 'gen_clean', 'tablename': n, 'chars': punct_of_source()} for n in names], which='model', cluster=CLUSTER)
+    bad = None if okp else {'probe': str(probe)[:300]}
+    for n, r, a in zip(names, real, ans):
+        if a.get('model') != r:
+            bad = bad or {'name': n, 'python': r, 'generated': a}
+    out.append({'name': f'gen:table-name clean-up loop = str.replace chain ({len(names)} names)', 'ok': bad is None, 'case': bad,
+                'detail': 'GenP._create_table_for_c over the punctuation literal of the source'})
+    return out
+
+
+def punct_of_source():
+    """the punctuation literal of `_create_table`, read from the source the check runs against"""
+    import ast, inspect, textwrap
+    src = textwrap.dedent(inspect.getsource(pdb2sql._create_table))
+    for n in ast.walk(ast.parse(src)):
+        if isinstance(n, ast.For) and isinstance(n.iter, ast.Constant) and isinstance(n.iter.value, str):
+            return n.iter.value
+    return ''
+
+
+def real_read(arg):
+    try:
+        r = pdb2sql.read_pdb(arg)
+        return [x if isinstance(x, str) else repr(x) for x in r]
+    except Exception as e:
+        return exc_tag(e)
+
+
+def extra_checks(ctx):
+    return gen_parse_tie_checks(ctx)
